@@ -1257,6 +1257,8 @@ fn corpus() -> Vec<(Fmt, &'static str, Vec<u8>)> {
         d("xcnf", "p cnf 3 3\nx1 2 0\nx -1 3 0\n1 -2 3 0\n"),
         d("cnf_order", "c 1 a\nc 3 c c\nc 2 b\nc 4\np cnf 4 3\n1 3 -4 0\n4 0 2\n-3 0\n"),
         d("cnf_order_tree", "c vo [[1, 2], [4, [3]]]\nc 2 foo\nc co [[0, 1], 2]\np cnf 4 3\n1 3 -4 0\n4 0 2\n-3 0\n"),
+        d("cnf_names_then_order_tree", "c 2 foo\nc 1 bar\nc vo [[1, 2], [4, [3]]]\nc 4 baz\np cnf 4 3\n1 3 -4 0\n4 0 2\n-3 0\n"),
+        d("cnf_linear_then_order_tree", "c 3\nc 1 a\nc 2\nc vo [3, [2, 1]]\np cnf 3 1\n1 2 3 0\n"),
         d("cnf_clause_tree", "c co [2, [0, 1]]\np cnf 2 3\n1 2 0\n-1 0\n-2 1 0\n"),
         d("example_sat", "c Sample SAT format\nc\np sat 4\n(*(+(1 3 -4)\n    +(4)\n    +(2 3)))"),
         d("satx", "p satx 3 \n xor(1 -2 *(3 -1) +())"),
@@ -1909,6 +1911,48 @@ fn order_preamble(rng: &mut Rng, v: usize) -> (String, Vec<usize>, Vec<Option<St
     rng.shuffle(&mut order);
     let mut names: Vec<Option<String>> = vec![None; v];
     let mut s = String::new();
+    if v >= 1 && rng.chance(1, 3) {
+        // the order as a tree ("c vo [..]") covering every variable, with name records for some of
+        // the variables before and after it; the linear order is the flattened tree
+        let mut tree = String::new();
+        let mut k = 0;
+        tree.push('[');
+        while k < v {
+            let take = rng.range(1, 3).min(v - k);
+            if k > 0 {
+                tree.push_str(", ");
+            }
+            if take == 1 && rng.bool() {
+                let _ = write!(tree, "{}", order[k] + 1);
+            } else {
+                tree.push('[');
+                for (j, x) in order[k..k + take].iter().enumerate() {
+                    if j > 0 {
+                        tree.push_str(", ");
+                    }
+                    let _ = write!(tree, "{}", x + 1);
+                }
+                tree.push(']');
+            }
+            k += take;
+        }
+        tree.push(']');
+        let mut named: Vec<usize> = (0..v).filter(|_| rng.chance(1, 2)).collect();
+        rng.shuffle(&mut named);
+        let split = rng.usize(named.len() + 1);
+        for (i, &x) in named.iter().enumerate() {
+            if i == split {
+                let _ = writeln!(s, "c vo {tree}");
+            }
+            let n = random_name(rng, x);
+            let _ = writeln!(s, "c {} {n}", x + 1);
+            names[x] = Some(n);
+        }
+        if split >= named.len() {
+            let _ = writeln!(s, "c vo {tree}");
+        }
+        return (s, order, names);
+    }
     for (k, &x) in order.iter().enumerate() {
         if rng.chance(2, 3) {
             let n = random_name(rng, k);
